@@ -13,6 +13,11 @@ let () = iter_lines (fun line ->
     let inp = bytes_of_hex s @ [N0] in
     print_endline (show_res (function None -> "none" | Some o -> hex_of_bytes o)
                      (unhexify_m hexchars inp (nat_of_int (int_of_string len))))
+  | ["unhexraw"; s; len] ->
+    (* no terminator: a read at or beyond the end of the block is a Fault *)
+    print_endline (show_res (function None -> "none" | Some o -> hex_of_bytes o)
+                     (unhexify_m hexchars (bytes_of_hex s) (nat_of_int (int_of_string len))))
+  | ["spec"; "unhexraw"; s; len]
   | ["spec"; "unhexify"; s; len] ->
     print_endline ("ok " ^ (match unhex_spec (bytes_of_hex s) (nat_of_int (int_of_string len)) with
         None -> "none" | Some o -> hex_of_bytes o))
